@@ -725,6 +725,7 @@ func execSeq(x *fw.Ctx, c Case) {
 	// calls until the cache is dropped
 	redefined := map[int]bool{}
 	stale, polluted := false, false
+	sweepObj, sweepCPL := map[int]slip.Object{}, map[int][]int{}
 	doCall := func(k int, classes []int, sweep bool) {
 		var want ref.Outcome
 		var got observed
@@ -733,6 +734,11 @@ func execSeq(x *fw.Ctx, c Case) {
 			objs := make([]slip.Object, len(classes))
 			cpls := make([][]int, len(classes))
 			for i, cl := range classes {
+				if sweep && !useOrig && sweepObj[cl] != nil {
+					// the sweep makes one new instance per class and reuses it
+					objs[i], cpls[i] = sweepObj[cl], sweepCPL[cl]
+					continue
+				}
 				var e *sl.Err
 				if objs[i], e = g.dagObj(cl, useOrig); e == nil {
 					cpls[i], e = g.cplOf(objs[i])
@@ -740,6 +746,9 @@ func execSeq(x *fw.Ctx, c Case) {
 				if e != nil {
 					x.Fail("dag instance-error", "class %d after [%s]: %s", cl, history(k), e)
 					return
+				}
+				if sweep && !useOrig {
+					sweepObj[cl], sweepCPL[cl] = objs[i], cpls[i]
 				}
 			}
 			want = st.DispatchCPL(cpls)
@@ -947,9 +956,17 @@ func execSeq(x *fw.Ctx, c Case) {
 					doCall(len(c.Ops), []int{a}, true)
 					continue
 				}
-				for _, b := range cls {
+				for bi, b := range cls {
+					// two arguments: every pair when there are few classes, else
+					// a fixed half of them; three arguments: the third follows
+					if c.Ar == 2 && 4 < len(cls) && (a+bi)%2 == 1 {
+						continue
+					}
 					t := []int{a, b}
 					if c.Ar == 3 {
+						if (a+bi)%2 == 1 {
+							continue
+						}
 						t = append(t, cls[(a+b)%len(cls)])
 					}
 					doCall(len(c.Ops), t, true)
@@ -1171,9 +1188,9 @@ type sizes struct{ exh, probes, short, long, conc, park, dag, cdag int }
 func tierSizes(tier string) sizes {
 	s := sizes{exh: len(blocks) * perBlock(tier), probes: len(probes)}
 	if tier == "thorough" {
-		s.short, s.long, s.conc, s.park, s.dag, s.cdag = 200000, 2000, 3000, len(parkCases), 40000, 1500
+		s.short, s.long, s.conc, s.park, s.dag, s.cdag = 200000, 2000, 3000, len(parkCases), 30000, 1500
 	} else {
-		s.short, s.long, s.conc, s.park, s.dag, s.cdag = 12000, 150, 300, len(parkCases), 2500, 150
+		s.short, s.long, s.conc, s.park, s.dag, s.cdag = 12000, 150, 300, len(parkCases), 2000, 120
 	}
 	// development knob (never set by registered commands): C10_ONLY=conc
 	// keeps only the probes, the directed interleavings and the concurrent
@@ -1498,24 +1515,34 @@ func exec(x *fw.Ctx, c Case) {
 func init() {
 	fw.Register(fw.Spec[Case]{
 		ID: "C10",
-		Rule: "a case is a history of defmethod / remove-method / call on one fresh generic function (1 or 2 required arguments; class chain of 4 defclass classes, " +
-			"a 4-class diamond, or real>rational>integer>fixnum, plus t and an unrelated class); every call is judged against a cache-free reference dispatcher (ordered trace, value, condition). " +
-			"Blocks: fixed probes (fast path 0->1->2->1 methods, :around body variants, stacked :around; concurrent probe shapes incl. the fast path 0->1->2->1->0 with calls in flight, each run race-detector-only and porcupine-checked); " +
-			"directed interleavings (caller parked between effective-method lookup, or default-caller pick, and execution while definitions change); concurrent histories (<= 8 goroutines, <= 30 ops, porcupine-checked, one in five around the single-method fast path); random histories of 200 ops and of length <= 7 over the full " +
-			"alphabet (one in four starting from :method options of defgeneric); then ALL histories of length 4 (quick) / 5 (thorough) ending in a call over nine 15-symbol alphabets (2 qualifiers x 3 specializer tuples x define/remove, 3 call tuples). " +
-			"distinct = distinct case JSON; non-trivial = at least one judged call and one change of the method table.",
+		Rule: "a case is a history of defmethod / remove-method / call (and, in the dag family, defclass) on one fresh generic function with 1, 2 or 3 required arguments, " +
+			"some of them unspecialised (written (x t) or as a bare symbol); argument classes: a chain of 4 defclass classes, a 4-class diamond, real>rational>integer>fixnum, plus t and an unrelated class, " +
+			"or (dag family) a per-case DAG of 3-7 classes that the history redefines. Every call is judged against a cache-free reference dispatcher (ordered trace, value, condition); " +
+			"in the dag family the reference takes the class precedence list slip reports for each argument at the time of the call. " +
+			"Blocks: fixed probes (fast path 0->1->2->1 methods, :around body variants, stacked :around, three arguments, unspecialised parameters, class redefinition after the cache was warmed on several " +
+			"subclasses: superclass removed / added / reordered, new class, every class called afterwards in both orders, instances that outlive their class, a class waiting for an undefined superclass; " +
+			"concurrent probe shapes incl. the fast path 0->1->2->1->0 with calls in flight, each run race-detector-only and porcupine-checked; defclass with calls in flight); " +
+			"directed interleavings (caller parked between effective-method lookup, or default-caller pick, and execution while definitions change); concurrent histories (<= 8 goroutines, <= 30 ops, " +
+			"porcupine-checked, one in five around the single-method fast path); concurrent class definition histories (one goroutine evaluates defclass, the others call: each call must match the precedence " +
+			"list its argument had before, between or after the definitions, and calls made after the join must match the final lists); random class redefinition histories (dag family, 10-35 ops, final sweep); " +
+			"random histories of 200 ops and of length <= 7 over the full alphabet (one in four starting from :method options of defgeneric, one in four with bare-symbol parameters); " +
+			"then ALL histories of length 4 (quick) / 5 (thorough) ending in a call over nine 15-symbol alphabets (2 qualifiers x 3 specializer tuples x define/remove, 3 call tuples). " +
+			"distinct = distinct case JSON; non-trivial = at least one judged call and one change of the method table or class graph. " +
+			"Minority treatment of listed findings: instances retained across a redefinition of their own class are called in 1/4 of the dag histories; bare-symbol parameters in 1/4 of the random histories " +
+			"(a history ends at a remove-method that had no effect); concurrent callers use instances of classes the definer does not replace itself.",
 		N:        nCases,
 		Gen:      gen,
 		Exec:     exec,
 		Init:     initWorld,
 		Race:     true,
-		Batch:    1500,
+		Batch:    750,
 		HangSecs: 60,
 		Assumptions: []string{
 			"the reference dispatcher (internal/c10/ref, written from the property statement and design/generics.md) is the trusted oracle",
 			"defclass chains give the class precedence list leaf..root, standard-object, t (checked by C12)",
 			"call-next-method is generated only in :around methods (slip dialect, design/generics.md)",
 			"when methods are applicable but no primary method is, both ANSI behaviour (error, nothing run) and slip's (run the daemons) are accepted",
+			"dag family: the class precedence list of an argument is what (class-precedence (class-of x)) reports at the time of the call (its correctness is C12's concern); instances made before a redefinition keep the original class (defclass documentation)",
 		},
 	})
 }
